@@ -53,6 +53,9 @@ def run(chk):
     chk.count('call sites with a context parameter in scope', n)
     chk.floor('C17-F call sites', n, 300)
 
+    chk.rule('C17-U', 'no function accepts a context parameter and then ignores it')
+    forwarding.dead_context_params(chk, c, 'C17-U', CONTEXT)
+
     # C17-D
     nget = 0
     for fq in sorted(cg.sites):
